@@ -116,42 +116,6 @@ theorem modifyWith_ok (fixed preserve : Bool) (cfg : Config) (img : List File)
   simp only [h, Bool.not_true, Bool.false_eq_true, ↓reduceIte] at he ⊢
   exact AllRel.map_left (fun f => (modifyOptions preserve cfg f, fileMarks preserve cfg f)) (sweepAll_ok fixed _ he)
 
-theorem modifyOptions_locs (preserve : Bool) (cfg : Config) (f : File) :
-    (modifyOptions preserve cfg f).locs = f.locs := by
-  unfold modifyOptions applyOptions; split <;> rfl
-
-def FieldFrame (fd fd' : Field) : Prop :=
-  fd'.fullName = fd.fullName ∧ fd'.path = fd.path ∧ fd'.typ = fd.typ ∧ fd'.rest = fd.rest
-
-def FileFrame (f f' : File) : Prop :=
-  f'.rest = f.rest ∧ f'.path = f.path ∧ f'.pkg = f.pkg ∧ f'.module = f.module ∧
-  AllRel FieldFrame f.fields f'.fields ∧ f'.locs.Sublist f.locs
-
-theorem applyField_frame (preserve : Bool) (cfg : Config) (f : File) (fd : Field) :
-    FieldFrame fd (applyField preserve cfg f fd) := by
-  unfold applyField; split <;> simp [FieldFrame]
-
-theorem AllRel.refl' {α : Type} {R : α → α → Prop} (h : ∀ a, R a a) : ∀ l : List α, AllRel R l l
-  | [] => trivial
-  | a :: as => ⟨h a, AllRel.refl' h as⟩
-
-theorem modifyOptions_frame (preserve : Bool) (cfg : Config) (f : File) :
-    FileFrame f (modifyOptions preserve cfg f) := by
-  unfold modifyOptions
-  split
-  · exact ⟨rfl, rfl, rfl, rfl, AllRel.refl' (fun _ => ⟨rfl, rfl, rfl, rfl⟩) _, List.Sublist.refl _⟩
-  · exact ⟨rfl, rfl, rfl, rfl, AllRel.map_self _ (applyField_frame preserve cfg f) _, List.Sublist.refl _⟩
-
-theorem outRel_frame {fixed preserve : Bool} {cfg : Config} {f f' : File}
-    (h : OutRel fixed preserve cfg f f') : FileFrame f f' := by
-  obtain ⟨l, rfl, hl⟩ := h
-  obtain ⟨h1, h2, h3, h4, h5, _⟩ := modifyOptions_frame preserve cfg f
-  refine ⟨h1, h2, h3, h4, h5, ?_⟩
-  simp only [modifyOptions_locs] at hl
-  rcases hl with rfl | hs
-  · exact List.Sublist.refl _
-  · exact sweepLocs_sublist hs
-
 
 theorem drop_cons_get {α : Type} {l : List α} {i : Nat} {x : α} {xs : List α}
     (h : l.drop i = x :: xs) : l[i]? = some x ∧ l.drop (i + 1) = xs := by
@@ -172,6 +136,8 @@ structure SweepInv (mk : List (List Nat)) (all : List Loc) (i : Nat) (st : Sweep
     (∃ loc : Loc, all[e.index]? = some loc ∧ loc.path = e.path) ∧ pathType e.path = .fieldOptionsRoot ∧
     (e.hit = true → ∃ (j : Nat) (loc : Loc), all[j]? = some loc ∧ loc.path ∈ mk ∧ properPrefix e.path loc.path = true)
   complete : ∀ k, k < i → ∀ loc : Loc, all[k]? = some loc → loc.path ∈ mk → k ∈ st.removed
+  parents : ∀ k, k + 1 < i → ∀ loc : Loc, all[k + 1]? = some loc → loc.path ∈ mk →
+    isFileOptPath loc.path = true → k ∈ st.removed
 
 theorem trieUpd_mem (g : TEntry → TEntry) :
     ∀ (t : List TEntry) (d : List Nat) (e' : TEntry), e' ∈ trieUpdAncestor g t d →
@@ -209,7 +175,7 @@ theorem insertRoot_inv {mk : List (List Nat)} {all : List Loc} {i : Nat} {st : S
   unfold insertRoot
   split
   · rename_i hroot
-    refine ⟨inv.removedOk, ?_, inv.complete⟩
+    refine ⟨inv.removedOk, ?_, inv.complete, inv.parents⟩
     intro e he
     rcases trieInsert_mem _ _ _ _ he with h1 | ⟨hp, hi, h2⟩
     · exact inv.trieOk e h1
@@ -232,7 +198,12 @@ theorem sweepLoop_inv (mk : List (List Nat)) (all : List Loc) :
         rcases Nat.lt_or_ge k all.length with h1 | h1
         · exact h1
         · simp [List.getElem?_eq_none h1] at hl
-      exact inv.complete k (by omega) loc hl hm⟩
+      exact inv.complete k (by omega) loc hl hm, fun k hk loc hl hm hf => by
+      have : k + 1 < all.length := by
+        rcases Nat.lt_or_ge (k + 1) all.length with h1 | h1
+        · exact h1
+        · simp [List.getElem?_eq_none h1] at hl
+      exact inv.parents k (by omega) loc hl hm hf⟩
   | loc :: rest, i, prev, st, st', hdrop, inv, h => by
     obtain ⟨hget, hdrop'⟩ := drop_cons_get hdrop
     unfold sweepLoop at h
@@ -247,7 +218,7 @@ theorem sweepLoop_inv (mk : List (List Nat)) (all : List Loc) :
       · rename_i hfo
         split at h; · cases h
         refine sweepLoop_inv mk all rest (i + 1) _
-          { trie := st1.trie, removed := i :: (i - 1) :: st1.removed } st' hdrop' ⟨?_, inv1.trieOk, ?_⟩ h
+          { trie := st1.trie, removed := i :: (i - 1) :: st1.removed } st' hdrop' ⟨?_, inv1.trieOk, ?_, ?_⟩ h
         · intro k hk
           simp only [List.mem_cons] at hk
           rcases hk with rfl | rfl | hk
@@ -261,8 +232,15 @@ theorem sweepLoop_inv (mk : List (List Nat)) (all : List Loc) :
           · subst hki; simp
           · simp only [List.mem_cons]
             exact Or.inr (Or.inr (inv1.complete k (by omega) l hl hm))
-      · split at h
-        · refine sweepLoop_inv mk all rest (i + 1) _ _ st' hdrop' ⟨?_, ?_, ?_⟩ h
+        · intro k hk l hl hm hf
+          by_cases hki : k + 1 = i
+          · have : k = i - 1 := by omega
+            subst this; simp
+          · simp only [List.mem_cons]
+            exact Or.inr (Or.inr (inv1.parents k (by omega) l hl hm hf))
+      · rename_i hfo
+        split at h
+        · refine sweepLoop_inv mk all rest (i + 1) _ _ st' hdrop' ⟨?_, ?_, ?_, ?_⟩ h
           · intro k hk
             simp only [List.mem_cons] at hk
             rcases hk with rfl | hk
@@ -278,10 +256,15 @@ theorem sweepLoop_inv (mk : List (List Nat)) (all : List Loc) :
             · subst hki; simp
             · simp only [List.mem_cons]
               exact Or.inr (inv1.complete k (by omega) l hl hm)
+          · intro k hk l hl hm hf
+            by_cases hki : k + 1 = i
+            · subst hki; rw [hget] at hl; cases hl; exact absurd hf hfo
+            · simp only [List.mem_cons]
+              exact Or.inr (inv1.parents k (by omega) l hl hm hf)
         · cases h
     · have hnmem : loc.path ∉ mk := by simpa using hmk
       simp only [hmk, Bool.not_false, ↓reduceIte] at h
-      refine sweepLoop_inv mk all rest (i + 1) _ _ st' hdrop' ⟨?_, ?_, ?_⟩ h
+      refine sweepLoop_inv mk all rest (i + 1) _ _ st' hdrop' ⟨?_, ?_, ?_, ?_⟩ h
       · unfold registerKept; split
         · exact inv1.removedOk
         · exact inv1.removedOk
@@ -296,115 +279,49 @@ theorem sweepLoop_inv (mk : List (List Nat)) (all : List Loc) :
         · subst hki; rw [hget] at hl; cases hl; exact absurd hm hnmem
         · have := inv1.complete k (by omega) l hl hm
           unfold registerKept; split <;> exact this
+      · intro k hk l hl hm hf
+        by_cases hki : k + 1 = i
+        · subst hki; rw [hget] at hl; cases hl; exact absurd hm hnmem
+        · have := inv1.parents k (by omega) l hl hm hf
+          unfold registerKept; split <;> exact this
 
 
+/-! ### options messages as lists by field number -/
 
+theorem getOpt_setOpt_same (n : Nat) (v : OVal) : ∀ os : Opts, getOpt n (setOpt n v os) = some v
+  | [] => by simp [setOpt, getOpt]
+  | (k, w) :: rest => by
+    unfold setOpt
+    by_cases h : k = n
+    · simp [h, getOpt]
+    · simp [h, getOpt, getOpt_setOpt_same n v rest]
 
-/-! ### helpers for the property theorems -/
+theorem getOpt_setOpt_ne {n m : Nat} (v : OVal) (h : m ≠ n) :
+    ∀ os : Opts, getOpt n (setOpt m v os) = getOpt n os
+  | [] => by simp [setOpt, getOpt, h]
+  | (k, w) :: rest => by
+    unfold setOpt
+    by_cases hk : k = m
+    · subst hk; simp [getOpt, h]
+    · by_cases hn : k = n
+      · subst hn; simp [hk, getOpt]
+      · simp [hk, getOpt, hn, getOpt_setOpt_ne v h rest]
 
-/-- `f'` is what `modify cfg img` returns at the position where `img` holds `f`. -/
-def Out (cfg : Config) (img : List File) (f f' : File) : Prop :=
-  ∃ i : Nat, img[i]? = some f ∧ (BufModel.Managed.modify cfg img).files[i]? = some f'
+/-! ### the modifiers in "parallel" form -/
 
+/-- the writes of the twelve file-option modifiers, each decided on the INPUT file. -/
+def fileChanges (preserve : Bool) (cfg : Config) (f : File) (gs : List Gov) : List (Nat × OVal) :=
+  gs.filterMap fun g => (govChange preserve cfg f g).map fun v => (g.tag, v)
 
-theorem foldl_last {α β : Type} (p : α → Bool) (g : α → β) (l : List α) (init : Option β) :
-    l.foldl (fun acc r => if p r then some (g r) else acc) init =
-      (((l.filter p).getLast?).map g).or init := by
-  induction l generalizing init with
-  | nil => simp
-  | cons a as ih =>
-    simp only [List.foldl_cons, ih]
-    by_cases hp : p a = true
-    · simp only [hp, if_true, List.filter_cons_of_pos]
-      cases hl : (as.filter p) with
-      | nil => simp
-      | cons b bs =>
-        have : (b :: bs).getLast? = some ((b :: bs).getLast (by simp)) := List.getLast?_eq_some_getLast (by simp)
-        simp [this]
-    · simp [hp]
+def setAll (cs : List (Nat × OVal)) (os : Opts) : Opts := cs.foldl (fun os c => setOpt c.1 c.2 os) os
 
-/-- `lastOverride` is the last rule, in configuration order, that matches the file and is for
-    exactly this option. -/
-theorem lastOverride_eq (cfg : Config) (f : File) (o : FileOption) :
-    lastOverride cfg f o =
-      (cfg.overrides.filter fun r => fileMatch f r.path r.module && r.fileOption = o).getLast? := by
-  unfold lastOverride
-  have := foldl_last (fun r : Override => fileMatch f r.path r.module && decide (r.fileOption = o)) id cfg.overrides none
-  simpa using this
+/-- the thirteen modifiers, each reading the input file. -/
+def applyOptions (preserve : Bool) (cfg : Config) (f : File) : File :=
+  { f with opts := setAll (fileChanges preserve cfg f Gov.all) f.opts
+           fields := f.fields.map (applyField preserve cfg f) }
 
-
-theorem stringOverride_disabled {cfg : Config} {f : File} {d : SOO} {v p s : FileOption}
-    (h : isFileOptionDisabled cfg f v = true) : stringOverride cfg f d v p s = SOO.empty := by
-  unfold stringOverride; simp [h]
-
-/-- an override rule concerns string option `o` of file `f`: it matches the file and is for the
-    option itself or for its prefix / suffix companion. -/
-def relevant (f : File) (o : StrOpt) (r : Override) : Bool :=
-  fileMatch f r.path r.module &&
-    (r.fileOption = o.valueOpt ||
-     (r.fileOption = o.prefixOpt && o.prefixOpt ≠ .unspecified) ||
-     (r.fileOption = o.suffixOpt && o.suffixOpt ≠ .unspecified))
-
-theorem sooStep_irrelevant (cfg : Config) (f : File) (o : StrOpt) (acc : SOO) (r : Override)
-    (hr : relevant f o r = false) :
-    sooStep f o.valueOpt o.prefixOpt o.suffixOpt
-      (o.prefixOpt = .unspecified || isFileOptionDisabled cfg f o.prefixOpt)
-      (o.suffixOpt = .unspecified || isFileOptionDisabled cfg f o.suffixOpt) acc r = acc := by
-  unfold sooStep
-  unfold relevant at hr
-  by_cases hm : fileMatch f r.path r.module = true
-  · simp only [hm, Bool.true_and, Bool.or_eq_false_iff, Bool.and_eq_false_imp, decide_eq_true_eq,
-      decide_eq_false_iff_not] at hr
-    obtain ⟨⟨h1, h2⟩, h3⟩ := hr
-    simp only [hm, Bool.not_true, Bool.false_eq_true, ↓reduceIte, h1]
-    by_cases hp : r.fileOption = o.prefixOpt
-    · have := h2 hp; simp at this; simp [hp, this]
-    · simp only [hp, ↓reduceIte]
-      by_cases hs : r.fileOption = o.suffixOpt
-      · have := h3 hs; simp at this; simp [hs, this]
-      · simp [hs]
-  · simp [hm]
-
-theorem foldl_irrelevant (cfg : Config) (f : File) (o : StrOpt) (post : List Override)
-    (hpost : ∀ r ∈ post, relevant f o r = false) (acc : SOO) :
-    post.foldl (sooStep f o.valueOpt o.prefixOpt o.suffixOpt
-      (o.prefixOpt = .unspecified || isFileOptionDisabled cfg f o.prefixOpt)
-      (o.suffixOpt = .unspecified || isFileOptionDisabled cfg f o.suffixOpt)) acc = acc := by
-  induction post generalizing acc with
-  | nil => rfl
-  | cons r rs ih =>
-    simp only [List.foldl_cons]
-    rw [sooStep_irrelevant cfg f o acc r (hpost r (by simp))]
-    exact ih (fun r' hr' => hpost r' (by simp [hr'])) acc
-
-
-theorem sweepInv_init (mk : List (List Nat)) (all : List Loc) : SweepInv mk all 0 ⟨[], []⟩ :=
-  ⟨by intro k hk; simp at hk, by intro e he; simp at he, by intro k hk; omega⟩
-
-
-/-! ### a concrete image and configuration for the non-vacuity examples -/
-
-def exFile : File :=
-  { path := "acme/weather/v1/weather.proto".toList, pkg := "acme.weather.v1".toList,
-    module := some "buf.build/acme/weather".toList,
-    strOpts := fun o => if o = .javaPackage then some "com.old".toList else none,
-    boolOpts := fun _ => none, optimizeFor := none,
-    fields := [⟨"acme.weather.v1.M.id".toList, [4, 0, 2, 0], some 3, some 1, 0⟩,
-               ⟨"acme.weather.v1.M.n".toList, [4, 0, 2, 1], some 5, none, 0⟩],
-    locs := [⟨[], 0⟩, ⟨[8], 1⟩, ⟨[8, 1], 2⟩, ⟨[4, 0, 2, 0, 8], 3⟩, ⟨[4, 0, 2, 0, 8, 6], 4⟩,
-             ⟨[4, 0, 2, 1, 8], 5⟩],
-    rest := 7 }
-
-def exWkt : File :=
-  { exFile with path := "google/protobuf/timestamp.proto".toList, pkg := "google.protobuf".toList }
-
-def exCfg : Config :=
-  { enabled := true,
-    disables := [⟨"acme".toList, [], [], .csharpNamespace, false⟩],
-    overrides := [⟨[], [], [], .goPackagePrefix, false, "gen/go".toList, false, 0⟩,
-                  ⟨[], [], [], .javaMultipleFiles, false, [], false, 0⟩,
-                  ⟨[], [], [], .unspecified, true, [], false, 2⟩] }
-
+def marks (preserve : Bool) (cfg : Config) (f : File) : List (List Nat) :=
+  (fileChanges preserve cfg f Gov.all).map (fun c => [8, c.1]) ++ jsMarks preserve cfg f
 
 /-- two files that agree on path, package and module. -/
 def SameKey (f g : File) : Prop := g.path = f.path ∧ g.pkg = f.pkg ∧ g.module = f.module
@@ -469,61 +386,761 @@ theorem jsFileActive_congr {f g : File} (h : SameKey f g) (cfg : Config) : jsFil
 theorem jsTarget_congr {f g : File} (h : SameKey f g) (cfg : Config) (n : List Char) : jsTarget cfg g n = jsTarget cfg f n := by
   unfold jsTarget; rw [jsOverrides_congr h]
 
+theorem jsChange_congr {f g : File} (h : SameKey f g) (p : Bool) (cfg : Config) (fd : Field) :
+    jsChange p cfg g fd = jsChange p cfg f fd := by
+  unfold jsChange
+  simp only [jsFileActive_congr h, jsDisables_congr h, jsTarget_congr h]
+
+theorem applyField_congr {f g : File} (h : SameKey f g) (p : Bool) (cfg : Config) (fd : Field) :
+    applyField p cfg g fd = applyField p cfg f fd := by
+  unfold applyField; rw [jsChange_congr h]
+
+theorem jsMarks_congr {f g : File} (h : SameKey f g) (hf : g.fields = f.fields) (p : Bool) (cfg : Config) :
+    jsMarks p cfg g = jsMarks p cfg f := by
+  unfold jsMarks; simp only [jsChange_congr h, hf]
+
+/-- each file-option modifier reads the file only through path / package / module and the
+    current value of ITS OWN option. -/
+theorem govChange_congr {f c : File} (h : SameKey f c) (p : Bool) (cfg : Config) (g : Gov)
+    (ho : getOpt g.tag c.opts = getOpt g.tag f.opts) : govChange p cfg c g = govChange p cfg f g := by
+  cases g with
+  | str o =>
+    have : c.strOpts o = f.strOpts o := by unfold File.strOpts; rw [show getOpt o.tag c.opts = getOpt o.tag f.opts from ho]
+    show (strChange p cfg c o).map OVal.str = (strChange p cfg f o).map OVal.str
+    unfold strChange; rw [this, strTarget_congr h]
+  | bool o =>
+    have : c.boolOpts o = f.boolOpts o := by unfold File.boolOpts; rw [show getOpt o.tag c.opts = getOpt o.tag f.opts from ho]
+    show (boolChange p cfg c o).map OVal.bool = (boolChange p cfg f o).map OVal.bool
+    unfold boolChange; rw [this, boolTarget_congr h]
+  | optimize =>
+    have : c.optimizeFor = f.optimizeFor := by unfold File.optimizeFor; rw [show getOpt optimizeForTag c.opts = getOpt optimizeForTag f.opts from ho]
+    show (optimizeChange p cfg c).map OVal.num = (optimizeChange p cfg f).map OVal.num
+    unfold optimizeChange; rw [this, optimizeTarget_congr h]
+
+theorem Gov.tag_inj : ∀ g g' : Gov, g.tag = g'.tag → g = g' := by
+  intro g g' h
+  cases g with
+  | str o => cases g' with
+    | str o' => cases o <;> cases o' <;> first | rfl | (exact absurd h (by decide))
+    | bool o' => cases o <;> cases o' <;> exact absurd h (by decide)
+    | optimize => cases o <;> exact absurd h (by decide)
+  | bool o => cases g' with
+    | str o' => cases o <;> cases o' <;> exact absurd h (by decide)
+    | bool o' => cases o <;> cases o' <;> first | rfl | (exact absurd h (by decide))
+    | optimize => cases o <;> exact absurd h (by decide)
+  | optimize => cases g' with
+    | str o' => cases o' <;> exact absurd h (by decide)
+    | bool o' => cases o' <;> exact absurd h (by decide)
+    | optimize => rfl
+
+theorem Gov.all_nodup : Gov.all.Nodup := by decide
+theorem Gov.mem_all : ∀ g : Gov, g ∈ Gov.all := by
+  intro g; cases g with
+  | str o => cases o <;> decide
+  | bool o => cases o <;> decide
+  | optimize => decide
 
 
+theorem getOpt_setAll_other (n : Nat) :
+    ∀ (cs : List (Nat × OVal)) (os : Opts), (∀ c ∈ cs, c.1 ≠ n) → getOpt n (setAll cs os) = getOpt n os
+  | [], _, _ => rfl
+  | c :: cs, os, h => by
+    show getOpt n (setAll cs (setOpt c.1 c.2 os)) = _
+    rw [getOpt_setAll_other n cs _ (fun c' hc' => h c' (by simp [hc']))]
+    exact getOpt_setOpt_ne _ (h c (by simp)) _
 
-theorem strChange_fixed {f g : File} (h : SameKey f g) (cfg : Config) (o : StrOpt)
-    (hg : g.strOpts o = (match strChange false cfg f o with | some v => some v | none => f.strOpts o)) :
-    strChange false cfg g o = none := by
-  unfold strChange at hg ⊢
-  simp only [Bool.false_and, Bool.false_eq_true, ↓reduceIte, strTarget_congr h] at hg ⊢
-  cases ht : strTarget cfg f o with
-  | none => rfl
-  | some v =>
-    simp only [ht] at hg ⊢
-    by_cases hc : (f.strOpts o).getD [] = v
-    · simp only [hc, ↓reduceIte] at hg; simp [hg, hc]
-    · simp only [hc, ↓reduceIte] at hg; simp [hg]
+theorem mem_fileChanges {p : Bool} {cfg : Config} {f : File} {gs : List Gov} {c : Nat × OVal} :
+    c ∈ fileChanges p cfg f gs ↔ ∃ g ∈ gs, govChange p cfg f g = some c.2 ∧ g.tag = c.1 := by
+  unfold fileChanges
+  simp only [List.mem_filterMap, Option.map_eq_some_iff]
+  constructor
+  · rintro ⟨g, hg, v, hv, rfl⟩; exact ⟨g, hg, hv, rfl⟩
+  · rintro ⟨g, hg, hv, ht⟩; exact ⟨g, hg, c.2, hv, by rw [ht]⟩
 
-theorem boolChange_fixed {f g : File} (h : SameKey f g) (cfg : Config) (o : BoolOpt)
-    (hg : g.boolOpts o = (match boolChange false cfg f o with | some v => some v | none => f.boolOpts o)) :
-    boolChange false cfg g o = none := by
-  unfold boolChange at hg ⊢
-  simp only [Bool.false_and, Bool.false_eq_true, ↓reduceIte, boolTarget_congr h] at hg ⊢
-  cases ht : boolTarget cfg f o with
-  | none => rfl
-  | some v =>
-    simp only [ht] at hg ⊢
-    by_cases hc : (f.boolOpts o).getD o.protoDefault = v
-    · simp only [hc, ↓reduceIte] at hg; simp [hg, hc]
-    · simp only [hc, ↓reduceIte] at hg; simp [hg]
+/-- the value of field number `n` after the file-option modifiers: if `n` is the number of
+    governed option `g ∈ gs` that decided to write `v`, it is `v`; otherwise it is unchanged. -/
+theorem getOpt_setAll_changes (p : Bool) (cfg : Config) (f : File) :
+    ∀ (gs : List Gov) (os : Opts), gs.Nodup → ∀ g ∈ gs,
+      getOpt g.tag (setAll (fileChanges p cfg f gs) os) = (govChange p cfg f g).or (getOpt g.tag os)
+  | [], _, _, g, hg => by simp at hg
+  | g0 :: gs, os, hnd, g, hg => by
+    have hnd' : gs.Nodup := (List.nodup_cons.mp hnd).2
+    have hnot : g0 ∉ gs := (List.nodup_cons.mp hnd).1
+    by_cases hgg : g = g0
+    · subst hgg
+      have hrest : ∀ c ∈ fileChanges p cfg f gs, c.1 ≠ g.tag := by
+        intro c hc
+        obtain ⟨g', hg', _, ht⟩ := mem_fileChanges.mp hc
+        intro he
+        have : g' = g := Gov.tag_inj _ _ (by rw [ht, he])
+        exact hnot (this ▸ hg')
+      cases hc : govChange p cfg f g with
+      | none =>
+        have : fileChanges p cfg f (g :: gs) = fileChanges p cfg f gs := by
+          unfold fileChanges; simp [hc]
+        rw [this, getOpt_setAll_other _ _ _ hrest]; simp
+      | some v =>
+        have : fileChanges p cfg f (g :: gs) = (g.tag, v) :: fileChanges p cfg f gs := by
+          unfold fileChanges; simp [hc]
+        rw [this]
+        show getOpt g.tag (setAll (fileChanges p cfg f gs) (setOpt g.tag v os)) = _
+        rw [getOpt_setAll_other _ _ _ hrest, getOpt_setOpt_same]; simp
+    · have hg' : g ∈ gs := by
+        rcases List.mem_cons.mp hg with h | h
+        · exact absurd h hgg
+        · exact h
+      have hne : g0.tag ≠ g.tag := fun he => hgg (Gov.tag_inj _ _ he.symm)
+      cases hc : govChange p cfg f g0 with
+      | none =>
+        have : fileChanges p cfg f (g0 :: gs) = fileChanges p cfg f gs := by
+          unfold fileChanges; simp [hc]
+        rw [this]; exact getOpt_setAll_changes p cfg f gs os hnd' g hg'
+      | some v =>
+        have : fileChanges p cfg f (g0 :: gs) = (g0.tag, v) :: fileChanges p cfg f gs := by
+          unfold fileChanges; simp [hc]
+        rw [this]
+        show getOpt g.tag (setAll (fileChanges p cfg f gs) (setOpt g0.tag v os)) = _
+        rw [getOpt_setAll_changes p cfg f gs _ hnd' g hg', getOpt_setOpt_ne _ hne]
 
-theorem optimizeChange_fixed {f g : File} (h : SameKey f g) (cfg : Config)
-    (hg : g.optimizeFor = (match optimizeChange false cfg f with | some v => some v | none => f.optimizeFor)) :
-    optimizeChange false cfg g = none := by
-  unfold optimizeChange at hg ⊢
-  simp only [Bool.false_and, Bool.false_eq_true, ↓reduceIte, optimizeTarget_congr h] at hg ⊢
-  cases ht : optimizeTarget cfg f with
-  | none => rfl
-  | some v =>
-    simp only [ht] at hg ⊢
-    by_cases hc : f.optimizeFor.getD optimizeSpeed = v
-    · simp only [hc, ↓reduceIte] at hg; simp [hg, hc]
-    · simp only [hc, ↓reduceIte] at hg; simp [hg]
+theorem getOpt_applyOptions_gov (p : Bool) (cfg : Config) (f : File) (g : Gov) :
+    getOpt g.tag (applyOptions p cfg f).opts = (govChange p cfg f g).or (getOpt g.tag f.opts) :=
+  getOpt_setAll_changes p cfg f Gov.all f.opts Gov.all_nodup g (Gov.mem_all g)
 
-theorem jsChange_fixed {f g : File} (h : SameKey f g) (cfg : Config) (fd : Field) :
-    jsChange false cfg g (applyField false cfg f fd) = none := by
+theorem getOpt_applyOptions_other (p : Bool) (cfg : Config) (f : File) (n : Nat)
+    (h : ∀ g : Gov, g.tag ≠ n) : getOpt n (applyOptions p cfg f).opts = getOpt n f.opts := by
+  apply getOpt_setAll_other
+  intro c hc
+  obtain ⟨g, _, _, ht⟩ := mem_fileChanges.mp hc
+  rw [← ht]; exact h g
+
+/-- the sequential run of the twelve modifiers (each reading the file as the previous ones
+    left it) computes the same as deciding every option on the input file. -/
+theorem foldl_stepGov (p : Bool) (cfg : Config) (f : File) :
+    ∀ (gs : List Gov) (c : File) (mk : List (List Nat)), gs.Nodup → SameKey f c →
+      (∀ g ∈ gs, getOpt g.tag c.opts = getOpt g.tag f.opts) →
+      gs.foldl (stepGov p cfg) (c, mk) =
+        ({ c with opts := setAll (fileChanges p cfg f gs) c.opts },
+         mk ++ (fileChanges p cfg f gs).map (fun ch => [8, ch.1]))
+  | [], c, mk, _, _, _ => by simp [fileChanges, setAll]
+  | g :: gs, c, mk, hnd, hk, ho => by
+    have hnd' : gs.Nodup := (List.nodup_cons.mp hnd).2
+    have hnot : g ∉ gs := (List.nodup_cons.mp hnd).1
+    have hcg : govChange p cfg c g = govChange p cfg f g := govChange_congr hk p cfg g (ho g (by simp))
+    have hstep : stepGov p cfg (c, mk) g =
+        match govChange p cfg f g with
+        | some v => ({ c with opts := setOpt g.tag v c.opts }, mk ++ [[8, g.tag]])
+        | none => (c, mk) := by
+      unfold stepGov; simp only [hcg]; cases govChange p cfg f g <;> rfl
+    simp only [List.foldl_cons]
+    rw [hstep]
+    cases hc : govChange p cfg f g with
+    | none =>
+      have : fileChanges p cfg f (g :: gs) = fileChanges p cfg f gs := by
+        unfold fileChanges; simp [hc]
+      rw [this]
+      exact foldl_stepGov p cfg f gs c mk hnd' hk (fun g' hg' => ho g' (by simp [hg']))
+    | some v =>
+      have : fileChanges p cfg f (g :: gs) = (g.tag, v) :: fileChanges p cfg f gs := by
+        unfold fileChanges; simp [hc]
+      rw [this]
+      simp only
+      rw [foldl_stepGov p cfg f gs _ _ hnd' (show SameKey f { c with opts := setOpt g.tag v c.opts } from hk)
+        (fun g' hg' => by
+          have hne : g.tag ≠ g'.tag := fun he => hnot ((Gov.tag_inj _ _ he) ▸ hg')
+          show getOpt g'.tag (setOpt g.tag v c.opts) = _
+          rw [getOpt_setOpt_ne _ hne]; exact ho g' (by simp [hg']))]
+      simp [setAll]
+
+theorem modifyFile_eq (p : Bool) (cfg : Config) (f : File) :
+    modifyFile p cfg f = (applyOptions p cfg f, marks p cfg f) := by
+  unfold modifyFile
+  rw [foldl_stepGov p cfg f Gov.all f [] Gov.all_nodup ⟨rfl, rfl, rfl⟩ (fun _ _ => rfl)]
+  have hk : SameKey f { f with opts := setAll (fileChanges p cfg f Gov.all) f.opts } := ⟨rfl, rfl, rfl⟩
+  simp only [List.nil_append]
+  unfold applyOptions marks
+  rw [jsMarks_congr hk rfl]
+  congr 2
+
+theorem modifyOptions_eq (p : Bool) (cfg : Config) (f : File) :
+    modifyOptions p cfg f = if isWKT f.path then f else applyOptions p cfg f := by
+  unfold modifyOptions; rw [modifyFile_eq]
+
+theorem fileMarks_eq (p : Bool) (cfg : Config) (f : File) :
+    fileMarks p cfg f = if isWKT f.path then [] else marks p cfg f := by
+  unfold fileMarks; rw [modifyFile_eq]
+
+
+/-! ### typed views of the modifiers' output -/
+
+theorem applyOptions_strOpts (p : Bool) (cfg : Config) (f : File) (o : StrOpt) :
+    (applyOptions p cfg f).strOpts o =
+      match strChange p cfg f o with | some v => some v | none => f.strOpts o := by
+  unfold File.strOpts
+  rw [show o.tag = (Gov.str o).tag from rfl, getOpt_applyOptions_gov]
+  have hg : govChange p cfg f (Gov.str o) = (strChange p cfg f o).map OVal.str := rfl
+  rw [hg]
+  cases strChange p cfg f o <;> simp
+
+theorem applyOptions_boolOpts (p : Bool) (cfg : Config) (f : File) (o : BoolOpt) :
+    (applyOptions p cfg f).boolOpts o =
+      match boolChange p cfg f o with | some v => some v | none => f.boolOpts o := by
+  unfold File.boolOpts
+  rw [show o.tag = (Gov.bool o).tag from rfl, getOpt_applyOptions_gov]
+  have hg : govChange p cfg f (Gov.bool o) = (boolChange p cfg f o).map OVal.bool := rfl
+  rw [hg]
+  cases boolChange p cfg f o <;> simp
+
+theorem applyOptions_optimizeFor (p : Bool) (cfg : Config) (f : File) :
+    (applyOptions p cfg f).optimizeFor =
+      match optimizeChange p cfg f with | some v => some v | none => f.optimizeFor := by
+  unfold File.optimizeFor
+  rw [show optimizeForTag = Gov.optimize.tag from rfl, getOpt_applyOptions_gov]
+  have hg : govChange p cfg f Gov.optimize = (optimizeChange p cfg f).map OVal.num := rfl
+  rw [hg]
+  cases optimizeChange p cfg f <;> simp
+
+theorem applyField_jstype (p : Bool) (cfg : Config) (f : File) (fd : Field) :
+    (applyField p cfg f fd).jstype =
+      match jsChange p cfg f fd with | some v => some v | none => fd.jstype := by
   unfold applyField
-  cases hc : jsChange false cfg f fd with
-  | none =>
-    simp only
-    rw [← hc]
-    unfold jsChange
-    simp only [jsFileActive_congr h, jsDisables_congr h, jsTarget_congr h]
+  cases jsChange p cfg f fd with
+  | none => rfl
+  | some v => simp only; unfold Field.jstype; simp only [getOpt_setOpt_same]
+
+theorem applyField_getOpt_other (p : Bool) (cfg : Config) (f : File) (fd : Field) (n : Nat)
+    (h : n ≠ jstypeTag) : getOpt n (applyField p cfg f fd).opts = getOpt n fd.opts := by
+  unfold applyField
+  cases jsChange p cfg f fd with
+  | none => rfl
+  | some v => exact getOpt_setOpt_ne _ (Ne.symm h) _
+
+theorem applyField_getOpt_js (p : Bool) (cfg : Config) (f : File) (fd : Field) :
+    getOpt jstypeTag (applyField p cfg f fd).opts =
+      ((jsChange p cfg f fd).map OVal.num).or (getOpt jstypeTag fd.opts) := by
+  unfold applyField
+  cases jsChange p cfg f fd with
+  | none => simp
+  | some v => simp [getOpt_setOpt_same]
+
+/-! ### a modifier writes only a value different from the one present -/
+
+theorem govChange_ne (p : Bool) (cfg : Config) (f : File) (g : Gov) (v : OVal)
+    (h : govChange p cfg f g = some v) : getOpt g.tag f.opts ≠ some v := by
+  intro he
+  cases g with
+  | str o =>
+    have h' : (strChange p cfg f o).map OVal.str = some v := h
+    obtain ⟨s, hs, rfl⟩ := Option.map_eq_some_iff.mp h'
+    have hso : f.strOpts o = some s := by
+      unfold File.strOpts; rw [show getOpt o.tag f.opts = some (OVal.str s) from he]
+    unfold strChange at hs
+    split at hs; · cases hs
+    split at hs; · cases hs
+    split at hs; · cases hs
+    rename_i v' _ hne
+    cases hs
+    exact hne (by rw [hso]; rfl)
+  | bool o =>
+    have h' : (boolChange p cfg f o).map OVal.bool = some v := h
+    obtain ⟨s, hs, rfl⟩ := Option.map_eq_some_iff.mp h'
+    have hso : f.boolOpts o = some s := by
+      unfold File.boolOpts; rw [show getOpt o.tag f.opts = some (OVal.bool s) from he]
+    unfold boolChange at hs
+    split at hs; · cases hs
+    split at hs; · cases hs
+    split at hs; · cases hs
+    rename_i v' _ hne
+    cases hs
+    exact hne (by rw [hso]; rfl)
+  | optimize =>
+    have h' : (optimizeChange p cfg f).map OVal.num = some v := h
+    obtain ⟨s, hs, rfl⟩ := Option.map_eq_some_iff.mp h'
+    have hso : f.optimizeFor = some s := by
+      unfold File.optimizeFor; rw [show getOpt optimizeForTag f.opts = some (OVal.num s) from he]
+    unfold optimizeChange at hs
+    split at hs; · cases hs
+    split at hs; · cases hs
+    split at hs; · cases hs
+    rename_i v' _ hne
+    cases hs
+    exact hne (by rw [hso]; rfl)
+
+theorem jsChange_ne (p : Bool) (cfg : Config) (f : File) (fd : Field) (v : Nat)
+    (h : jsChange p cfg f fd = some v) : getOpt jstypeTag fd.opts ≠ some (.num v) := by
+  intro he
+  have hj : fd.jstype = some v := by unfold Field.jstype; rw [he]
+  unfold jsChange at h
+  split at h; · cases h
+  split at h; · cases h
+  split at h; · cases h
+  split at h; · cases h
+  split at h; · cases h
+  split at h; · cases h
+  split at h; · cases h
+  rename_i hne
+  cases h
+  exact hne hj
+
+/-- file options: a modifier reports a write (and marks the location) exactly when the value
+    of its option differs afterwards. -/
+theorem gov_marked_iff_changed (p : Bool) (cfg : Config) (f : File) (g : Gov) :
+    (govChange p cfg f g).isSome = true ↔
+      getOpt g.tag (applyOptions p cfg f).opts ≠ getOpt g.tag f.opts := by
+  rw [getOpt_applyOptions_gov]
+  cases hc : govChange p cfg f g with
+  | none => simp
   | some v =>
-    simp only
+    simp only [Option.isSome_some, true_iff]
+    exact fun he => govChange_ne p cfg f g v hc he.symm
+
+theorem js_marked_iff_changed (p : Bool) (cfg : Config) (f : File) (fd : Field) :
+    (jsChange p cfg f fd).isSome = true ↔
+      getOpt jstypeTag (applyField p cfg f fd).opts ≠ getOpt jstypeTag fd.opts := by
+  rw [applyField_getOpt_js]
+  cases hc : jsChange p cfg f fd with
+  | none => simp
+  | some v =>
+    simp only [Option.isSome_some, Option.map_some, true_iff]
+    exact fun he => jsChange_ne p cfg f fd v hc he.symm
+
+
+/-! ### what managed mode governs -/
+
+/-- `checkOptionSetFunc(descriptor.Options)`. -/
+def govIsSet (f : File) : Gov → Bool
+  | .str o => (f.strOpts o).isSome
+  | .bool o => (f.boolOpts o).isSome
+  | .optimize => f.optimizeFor.isSome
+
+/-- Managed mode governs FileOptions field number `n` of file `f`: managed mode is enabled, the
+    file is not a well-known type, `n` is the number of one of the twelve governed options, no
+    disable rule exempts that option for this file, and (with `ModifyPreserveExisting`) the
+    option is not already set. -/
+def Governs (p : Bool) (cfg : Config) (f : File) (n : Nat) : Prop :=
+  cfg.enabled = true ∧ isWKT f.path = false ∧
+    ∃ g : Gov, g.tag = n ∧ isFileOptionDisabled cfg f g.fileOpt = false ∧ (p && govIsSet f g) = false
+
+/-- some disable rule exempts jstype of this field: it is for jstype or for everything, matches
+    the file, and names this field or no field. -/
+def jsDisabledFor (cfg : Config) (f : File) (name : List Char) : Bool :=
+  cfg.disables.any fun d =>
+    (d.jstype || d.fileOption = .unspecified) && fileMatch f d.path d.module &&
+      (d.fieldName = [] || d.fieldName = name)
+
+/-- the value of the LAST override rule for jstype that matches the file and names this field
+    or no field. -/
+def jsSpec (cfg : Config) (f : File) (name : List Char) : Option Nat :=
+  ((cfg.overrides.filter fun r => (r.jstype && fileMatch f r.path r.module) &&
+      (r.fieldName = [] || r.fieldName = name)).getLast?).map (·.nval)
+
+/-- Managed mode governs `jstype` of field `fd` of file `f`. -/
+def JsGoverns (p : Bool) (cfg : Config) (f : File) (fd : Field) : Prop :=
+  cfg.enabled = true ∧ isWKT f.path = false ∧ jsDisabledFor cfg f fd.fullName = false ∧
+    (jsSpec cfg f fd.fullName).isSome = true ∧ fd.typ.any jsTypePermitted = true ∧
+    (p && fd.jstype.isSome) = false
+
+theorem govChange_none_of_disabled (p : Bool) (cfg : Config) (f : File) (g : Gov)
+    (h : isFileOptionDisabled cfg f g.fileOpt = true) : govChange p cfg f g = none := by
+  cases g with
+  | str o =>
+    have h' : isFileOptionDisabled cfg f o.valueOpt = true := h
+    have : strTarget cfg f o = none := by
+      unfold strTarget stringOverride; simp [h', SOO.empty]
+    show (strChange p cfg f o).map OVal.str = none
+    unfold strChange; simp [this]
+  | bool o =>
+    have h' : isFileOptionDisabled cfg f o.fileOpt = true := h
+    show (boolChange p cfg f o).map OVal.bool = none
+    unfold boolChange boolTarget; simp [h']
+  | optimize =>
+    have h' : isFileOptionDisabled cfg f .optimizeFor = true := h
+    show (optimizeChange p cfg f).map OVal.num = none
+    unfold optimizeChange optimizeTarget; simp [h']
+
+theorem govChange_none_of_preserved (cfg : Config) (f : File) (g : Gov)
+    (h : govIsSet f g = true) : govChange true cfg f g = none := by
+  cases g with
+  | str o =>
+    have h' : (f.strOpts o).isSome = true := h
+    show (strChange true cfg f o).map OVal.str = none
+    unfold strChange; simp [h']
+  | bool o =>
+    have h' : (f.boolOpts o).isSome = true := h
+    show (boolChange true cfg f o).map OVal.bool = none
+    unfold boolChange; simp [h']
+  | optimize =>
+    have h' : f.optimizeFor.isSome = true := h
+    show (optimizeChange true cfg f).map OVal.num = none
+    unfold optimizeChange; simp [h']
+
+/-- frame for file options, at the level of one file's modifiers. -/
+theorem modifyOptions_frame_opts (p : Bool) (cfg : Config) (f : File) (he : cfg.enabled = true) (n : Nat)
+    (h : ¬ Governs p cfg f n) : getOpt n (modifyOptions p cfg f).opts = getOpt n f.opts := by
+  rw [modifyOptions_eq]
+  by_cases hw : isWKT f.path = true
+  · simp [hw]
+  · simp only [hw, Bool.false_eq_true, ↓reduceIte]
+    by_cases hg : ∃ g : Gov, g.tag = n
+    · obtain ⟨g, rfl⟩ := hg
+      rw [getOpt_applyOptions_gov]
+      have : govChange p cfg f g = none := by
+        by_cases hd : isFileOptionDisabled cfg f g.fileOpt = true
+        · exact govChange_none_of_disabled p cfg f g hd
+        · by_cases hp : (p && govIsSet f g) = true
+          · simp only [Bool.and_eq_true] at hp
+            obtain ⟨rfl, hs⟩ := hp
+            exact govChange_none_of_preserved cfg f g hs
+          · exact absurd ⟨he, by simpa using hw, g, rfl, by simpa using hd, by simpa using hp⟩ h
+      simp [this]
+    · exact getOpt_applyOptions_other p cfg f n (fun g hgt => hg ⟨g, hgt⟩)
+
+/-! ### jstype: the walk callback against the declarative description -/
+
+theorem foldl_last {α β : Type} (p : α → Bool) (g : α → β) (l : List α) (init : Option β) :
+    l.foldl (fun acc r => if p r then some (g r) else acc) init =
+      (((l.filter p).getLast?).map g).or init := by
+  induction l generalizing init with
+  | nil => simp
+  | cons a as ih =>
+    simp only [List.foldl_cons, ih]
+    by_cases hp : p a = true
+    · simp only [hp, if_true, List.filter_cons_of_pos]
+      cases hl : (as.filter p) with
+      | nil => simp
+      | cons b bs =>
+        have : (b :: bs).getLast? = some ((b :: bs).getLast (by simp)) := List.getLast?_eq_some_getLast (by simp)
+        simp [this]
+    · simp [hp]
+
+/-- `lastOverride` is the last rule, in configuration order, that matches the file and is for
+    exactly this option. -/
+theorem lastOverride_eq (cfg : Config) (f : File) (o : FileOption) :
+    lastOverride cfg f o =
+      (cfg.overrides.filter fun r => fileMatch f r.path r.module && r.fileOption = o).getLast? := by
+  unfold lastOverride
+  have := foldl_last (fun r : Override => fileMatch f r.path r.module && decide (r.fileOption = o)) id cfg.overrides none
+  simpa using this
+
+theorem jsTarget_eq (cfg : Config) (f : File) (name : List Char) :
+    jsTarget cfg f name = jsSpec cfg f name := by
+  unfold jsTarget jsOverrides jsSpec
+  have := foldl_last (fun r : Override => decide (r.fieldName = []) || decide (r.fieldName = name)) (·.nval)
+    (cfg.overrides.filter fun r => r.jstype && fileMatch f r.path r.module) none
+  simp only [Bool.or_eq_true, decide_eq_true_eq] at this
+  simp only [Bool.or_eq_true, decide_eq_true_eq, this, Option.or_none, List.filter_filter]
+  congr 2
+  apply List.filter_congr
+  intro r _
+  cases r.jstype <;> cases fileMatch f r.path r.module <;> simp
+
+theorem jsDisabledFor_eq (cfg : Config) (f : File) (name : List Char) :
+    jsDisabledFor cfg f name =
+      ((jsDisables cfg f).any (fun r => r.fieldName = []) || (jsDisables cfg f).any (fun r => r.fieldName = name)) := by
+  unfold jsDisabledFor jsDisables
+  rw [List.any_filter, List.any_filter]
+  induction cfg.disables with
+  | nil => rfl
+  | cons d ds ih =>
+    simp only [List.any_cons, ih]
+    cases d.jstype <;> cases fileMatch f d.path d.module <;> cases decide (d.fieldName = []) <;>
+      cases decide (d.fieldName = name) <;> cases decide (d.fileOption = FileOption.unspecified) <;> simp
+
+
+/-- the value `modifyJsType` leaves in `jstype` of one field, stated without the code's
+    filters and loops: exempted by a disable rule, or no matching override, or preserved, or a
+    type jstype is not permitted on ⇒ unchanged; otherwise the last matching override. -/
+def jsWant (p : Bool) (cfg : Config) (f : File) (fd : Field) : Option Nat :=
+  if isWKT f.path then fd.jstype
+  else if jsDisabledFor cfg f fd.fullName then fd.jstype
+  else match jsSpec cfg f fd.fullName with
+    | none => fd.jstype
+    | some v =>
+      if p && fd.jstype.isSome then fd.jstype
+      else if fd.typ.any jsTypePermitted then some v else fd.jstype
+
+theorem jsTarget_nil (cfg : Config) (f : File) (name : List Char) (h : jsOverrides cfg f = []) :
+    jsTarget cfg f name = none := by
+  unfold jsTarget; rw [h]; rfl
+
+theorem jsChange_spec (p : Bool) (cfg : Config) (f : File) (fd : Field) :
+    (match jsChange p cfg f fd with | some v => some v | none => fd.jstype) = jsWant p cfg f fd := by
+  unfold jsWant
+  rw [jsDisabledFor_eq, ← jsTarget_eq]
+  unfold jsChange jsFileActive
+  by_cases hw : isWKT f.path = true
+  · simp [hw]
+  · simp only [hw, Bool.false_eq_true, ↓reduceIte, Bool.not_false, Bool.and_true]
+    by_cases hd1 : (jsDisables cfg f).any (fun r => r.fieldName = []) = true
+    · simp [hd1]
+    · by_cases hd2 : (jsDisables cfg f).any (fun r => r.fieldName = fd.fullName) = true
+      · simp [hd2]
+      · simp only [hd1, hd2, Bool.not_false, Bool.and_true, Bool.or_self, Bool.false_eq_true, ↓reduceIte,
+          Bool.not_not]
+        by_cases hov : (jsOverrides cfg f).isEmpty = true
+        · have : jsTarget cfg f fd.fullName = none := jsTarget_nil cfg f _ (List.isEmpty_iff.mp hov)
+          simp [hov, this]
+        · simp only [hov, Bool.false_eq_true, ↓reduceIte]
+          cases jsTarget cfg f fd.fullName with
+          | none => rfl
+          | some v =>
+            simp only
+            by_cases hp : (p && fd.jstype.isSome) = true
+            · simp [hp]
+            · simp only [hp, Bool.false_eq_true, ↓reduceIte]
+              cases ht : fd.typ with
+              | none => simp
+              | some t =>
+                by_cases hperm : jsTypePermitted t = true
+                · simp only [hperm, Bool.not_true, Bool.false_eq_true, ↓reduceIte, Option.any_some]
+                  by_cases heq : fd.jstype = some v
+                  · simp [heq]
+                  · simp [heq]
+                · simp [hperm]
+
+theorem applyField_jstype_spec (p : Bool) (cfg : Config) (f : File) (fd : Field) :
+    (applyField p cfg f fd).jstype = jsWant p cfg f fd := by
+  exact (applyField_jstype p cfg f fd).trans (jsChange_spec p cfg f fd)
+
+theorem jsChange_none_of_not_governs (p : Bool) (cfg : Config) (f : File) (fd : Field)
+    (he : cfg.enabled = true) (h : ¬ JsGoverns p cfg f fd) : jsChange p cfg f fd = none := by
+  cases hc : jsChange p cfg f fd with
+  | none => rfl
+  | some v =>
+    exfalso
+    have hs := jsChange_spec p cfg f fd
+    have hne := jsChange_ne p cfg f fd v hc
+    rw [hc] at hs
+    simp only at hs
+    have hjs : fd.jstype ≠ some v := by
+      intro hj
+      unfold jsChange at hc
+      split at hc; · cases hc
+      split at hc; · cases hc
+      split at hc; · cases hc
+      split at hc; · cases hc
+      split at hc; · cases hc
+      split at hc; · cases hc
+      split at hc; · cases hc
+      rename_i hne'
+      cases hc; exact hne' hj
+    apply h
+    unfold jsWant at hs
+    by_cases hw : isWKT f.path = true
+    · simp [hw] at hs; exact absurd hs.symm hjs
+    · simp only [hw, Bool.false_eq_true, ↓reduceIte] at hs
+      by_cases hd : jsDisabledFor cfg f fd.fullName = true
+      · simp [hd] at hs; exact absurd hs.symm hjs
+      · simp only [hd, Bool.false_eq_true, ↓reduceIte] at hs
+        cases hsp : jsSpec cfg f fd.fullName with
+        | none => simp [hsp] at hs; exact absurd hs.symm hjs
+        | some w =>
+          simp only [hsp] at hs
+          by_cases hp : (p && fd.jstype.isSome) = true
+          · simp [hp] at hs; exact absurd hs.symm hjs
+          · simp only [hp, Bool.false_eq_true, ↓reduceIte] at hs
+            by_cases hperm : fd.typ.any jsTypePermitted = true
+            · exact ⟨he, by simpa using hw, by simpa using hd, by simp [hsp], hperm, by simpa using hp⟩
+            · simp [hperm] at hs; exact absurd hs.symm hjs
+
+/-! ### frame -/
+
+/-- what cannot change in a field: name, path, type, the opaque rest, and every field option
+    managed mode does not govern for it. -/
+def FieldFrame (p : Bool) (cfg : Config) (f : File) (fd fd' : Field) : Prop :=
+  fd'.fullName = fd.fullName ∧ fd'.path = fd.path ∧ fd'.typ = fd.typ ∧ fd'.rest = fd.rest ∧
+  ∀ n : Nat, (n ≠ jstypeTag ∨ ¬ JsGoverns p cfg f fd) → getOpt n fd'.opts = getOpt n fd.opts
+
+/-- what cannot change in a file. -/
+def FileFrame (p : Bool) (cfg : Config) (f f' : File) : Prop :=
+  f'.payload = f.payload ∧ f'.path = f.path ∧ f'.pkg = f.pkg ∧ f'.module = f.module ∧
+  (∀ n : Nat, ¬ Governs p cfg f n → getOpt n f'.opts = getOpt n f.opts) ∧
+  AllRel (FieldFrame p cfg f) f.fields f'.fields ∧ f'.locs.Sublist f.locs
+
+theorem applyField_frame (p : Bool) (cfg : Config) (f : File) (he : cfg.enabled = true) (fd : Field) :
+    FieldFrame p cfg f fd (applyField p cfg f fd) := by
+  have h4 : (applyField p cfg f fd).fullName = fd.fullName ∧ (applyField p cfg f fd).path = fd.path ∧
+      (applyField p cfg f fd).typ = fd.typ ∧ (applyField p cfg f fd).rest = fd.rest := by
+    unfold applyField; split <;> exact ⟨rfl, rfl, rfl, rfl⟩
+  refine ⟨h4.1, h4.2.1, h4.2.2.1, h4.2.2.2, ?_⟩
+  intro n hn
+  rcases hn with hn | hn
+  · exact applyField_getOpt_other p cfg f fd n hn
+  · unfold applyField; rw [jsChange_none_of_not_governs p cfg f fd he hn]
+
+theorem AllRel.refl_of {α : Type} {R : α → α → Prop} (h : ∀ a, R a a) : ∀ l : List α, AllRel R l l
+  | [] => trivial
+  | a :: as => ⟨h a, AllRel.refl_of h as⟩
+
+theorem applyOptions_proj (p : Bool) (cfg : Config) (f : File) :
+    (applyOptions p cfg f).payload = f.payload ∧ (applyOptions p cfg f).path = f.path ∧
+    (applyOptions p cfg f).pkg = f.pkg ∧ (applyOptions p cfg f).module = f.module ∧
+    (applyOptions p cfg f).locs = f.locs ∧
+    (applyOptions p cfg f).fields = f.fields.map (applyField p cfg f) := ⟨rfl, rfl, rfl, rfl, rfl, rfl⟩
+
+theorem modifyOptions_locs (p : Bool) (cfg : Config) (f : File) :
+    (modifyOptions p cfg f).locs = f.locs := by
+  rw [modifyOptions_eq]; split <;> rfl
+
+theorem modifyOptions_frame (p : Bool) (cfg : Config) (f : File) (he : cfg.enabled = true) :
+    FileFrame p cfg f (modifyOptions p cfg f) := by
+  have hopts := modifyOptions_frame_opts p cfg f he
+  rw [modifyOptions_eq] at hopts ⊢
+  by_cases hw : isWKT f.path = true
+  · simp only [hw, ↓reduceIte] at hopts ⊢
+    exact ⟨rfl, rfl, rfl, rfl, fun _ _ => rfl, AllRel.refl_of (fun _ => ⟨rfl, rfl, rfl, rfl, fun _ _ => rfl⟩) _, List.Sublist.refl _⟩
+  · simp only [hw, Bool.false_eq_true, ↓reduceIte] at hopts ⊢
+    exact ⟨rfl, rfl, rfl, rfl, hopts, AllRel.map_self _ (applyField_frame p cfg f he) _, List.Sublist.refl _⟩
+
+theorem outRel_frame {fixed p : Bool} {cfg : Config} {f f' : File} (he : cfg.enabled = true)
+    (h : OutRel fixed p cfg f f') : FileFrame p cfg f f' := by
+  obtain ⟨l, rfl, hl⟩ := h
+  obtain ⟨h1, h2, h3, h4, h5, h6, _⟩ := modifyOptions_frame p cfg f he
+  refine ⟨h1, h2, h3, h4, h5, h6, ?_⟩
+  simp only [modifyOptions_locs] at hl
+  rcases hl with rfl | hs
+  · exact List.Sublist.refl _
+  · exact sweepLocs_sublist hs
+
+
+/-! ### marks = options whose value changed -/
+
+/-- `p` is the SourceCodeInfo path of an option whose value differs between `f` and `f'`:
+    `[8, n]` for FileOptions field `n`, `field path ++ [8, 6]` for a field's jstype. -/
+def Changed (f f' : File) (p : List Nat) : Prop :=
+  (∃ n : Nat, p = [8, n] ∧ getOpt n f'.opts ≠ getOpt n f.opts) ∨
+  (∃ (j : Nat) (fd fd' : Field), f.fields[j]? = some fd ∧ f'.fields[j]? = some fd' ∧
+    getOpt jstypeTag fd'.opts ≠ getOpt jstypeTag fd.opts ∧ fd.path ≠ [] ∧ p = fd.path ++ [8, jstypeTag])
+
+theorem changed_congr {f f' f'' : File} (ho : f''.opts = f'.opts) (hf : f''.fields = f'.fields) (p : List Nat) :
+    Changed f f'' p ↔ Changed f f' p := by
+  unfold Changed; rw [ho, hf]
+
+theorem not_changed_self (f : File) (p : List Nat) : ¬ Changed f f p := by
+  rintro (⟨n, _, h⟩ | ⟨j, fd, fd', h1, h2, h3, _⟩)
+  · exact h rfl
+  · rw [h1] at h2; cases h2; exact h3 rfl
+
+theorem marks_iff_changed (p : Bool) (cfg : Config) (f : File) (q : List Nat) :
+    q ∈ marks p cfg f ↔ Changed f (applyOptions p cfg f) q := by
+  unfold marks Changed
+  simp only [List.mem_append, List.mem_map]
+  constructor
+  · rintro (⟨c, hc, rfl⟩ | hq)
+    · obtain ⟨g, _, hg, ht⟩ := mem_fileChanges.mp hc
+      refine Or.inl ⟨c.1, rfl, ?_⟩
+      rw [← ht]
+      exact (gov_marked_iff_changed p cfg f g).mp (by simp [hg])
+    · unfold jsMarks at hq
+      obtain ⟨fd, hfd, hq⟩ := List.mem_filterMap.mp hq
+      cases hc : jsChange p cfg f fd with
+      | none => simp [hc] at hq
+      | some v =>
+        simp only [hc] at hq
+        by_cases hp : fd.path = []
+        · simp [hp] at hq
+        · simp only [hp, ↓reduceIte, Option.some.injEq] at hq
+          obtain ⟨j, hj⟩ := List.getElem?_of_mem hfd
+          refine Or.inr ⟨j, fd, applyField p cfg f fd, hj, ?_, ?_, hp, hq.symm⟩
+          · show (f.fields.map (applyField p cfg f))[j]? = _
+            simp [hj]
+          · exact (js_marked_iff_changed p cfg f fd).mp (by simp [hc])
+  · rintro (⟨n, rfl, hne⟩ | ⟨j, fd, fd', hj, hj', hne, hp, rfl⟩)
+    · by_cases hg : ∃ g : Gov, g.tag = n
+      · obtain ⟨g, rfl⟩ := hg
+        have := (gov_marked_iff_changed p cfg f g).mpr hne
+        obtain ⟨v, hv⟩ := Option.isSome_iff_exists.mp this
+        exact Or.inl ⟨(g.tag, v), mem_fileChanges.mpr ⟨g, Gov.mem_all g, hv, rfl⟩, rfl⟩
+      · exact absurd (getOpt_applyOptions_other p cfg f n (fun g hgt => hg ⟨g, hgt⟩)) hne
+    · have hfd' : fd' = applyField p cfg f fd := by
+        have : (f.fields.map (applyField p cfg f))[j]? = some fd' := hj'
+        simp [hj] at this; exact this.symm
+      subst hfd'
+      have := (js_marked_iff_changed p cfg f fd).mpr hne
+      obtain ⟨v, hv⟩ := Option.isSome_iff_exists.mp this
+      refine Or.inr ?_
+      unfold jsMarks
+      exact List.mem_filterMap.mpr ⟨fd, List.mem_of_getElem? hj, by simp [hv, hp]⟩
+
+/-- the paths handed to the sweeper for a file are exactly the paths of the options whose
+    value the modifiers changed. -/
+theorem fileMarks_iff_changed (p : Bool) (cfg : Config) (f : File) (q : List Nat) :
+    q ∈ fileMarks p cfg f ↔ Changed f (modifyOptions p cfg f) q := by
+  rw [fileMarks_eq, modifyOptions_eq]
+  by_cases hw : isWKT f.path = true
+  · simp only [hw, ↓reduceIte, List.not_mem_nil, false_iff]; exact not_changed_self f q
+  · simp only [hw, Bool.false_eq_true, ↓reduceIte]; exact marks_iff_changed p cfg f q
+
+theorem removeIndices_nil (locs : List Loc) : removeIndices locs [] = locs := by
+  unfold removeIndices
+  simp only [List.contains_nil, Bool.not_false]
+  rw [List.filter_eq_self.mpr (fun _ _ => rfl)]
+  simp
+
+
+/-! ### fixed points and idempotence -/
+
+theorem strChange_fixed {f g : File} (h : SameKey f g) (p : Bool) (cfg : Config) (o : StrOpt)
+    (hg : g.strOpts o = (match strChange p cfg f o with | some v => some v | none => f.strOpts o)) :
+    strChange p cfg g o = none := by
+  unfold strChange at hg ⊢
+  rw [strTarget_congr h]
+  by_cases hp : (p && (f.strOpts o).isSome) = true
+  · simp only [hp, ↓reduceIte] at hg
+    rw [hg]; simp [hp]
+  · simp only [hp, Bool.false_eq_true, ↓reduceIte] at hg
+    cases ht : strTarget cfg f o with
+    | none => simp only [ht] at hg; rw [hg]; simp
+    | some v =>
+      simp only [ht] at hg ⊢
+      by_cases hc : (f.strOpts o).getD [] = v
+      · simp only [hc, ↓reduceIte] at hg; rw [hg]; simp [hc]
+      · simp only [hc, ↓reduceIte] at hg; rw [hg]; simp
+
+theorem boolChange_fixed {f g : File} (h : SameKey f g) (p : Bool) (cfg : Config) (o : BoolOpt)
+    (hg : g.boolOpts o = (match boolChange p cfg f o with | some v => some v | none => f.boolOpts o)) :
+    boolChange p cfg g o = none := by
+  unfold boolChange at hg ⊢
+  rw [boolTarget_congr h]
+  by_cases hp : (p && (f.boolOpts o).isSome) = true
+  · simp only [hp, ↓reduceIte] at hg
+    rw [hg]; simp [hp]
+  · simp only [hp, Bool.false_eq_true, ↓reduceIte] at hg
+    cases ht : boolTarget cfg f o with
+    | none => simp only [ht] at hg; rw [hg]; simp
+    | some v =>
+      simp only [ht] at hg ⊢
+      by_cases hc : (f.boolOpts o).getD o.protoDefault = v
+      · simp only [hc, ↓reduceIte] at hg; rw [hg]; simp [hc]
+      · simp only [hc, ↓reduceIte] at hg; rw [hg]; simp
+
+theorem optimizeChange_fixed {f g : File} (h : SameKey f g) (p : Bool) (cfg : Config)
+    (hg : g.optimizeFor = (match optimizeChange p cfg f with | some v => some v | none => f.optimizeFor)) :
+    optimizeChange p cfg g = none := by
+  unfold optimizeChange at hg ⊢
+  rw [optimizeTarget_congr h]
+  by_cases hp : (p && f.optimizeFor.isSome) = true
+  · simp only [hp, ↓reduceIte] at hg
+    rw [hg]; simp [hp]
+  · simp only [hp, Bool.false_eq_true, ↓reduceIte] at hg
+    cases ht : optimizeTarget cfg f with
+    | none => simp only [ht] at hg; rw [hg]; simp
+    | some v =>
+      simp only [ht] at hg ⊢
+      by_cases hc : f.optimizeFor.getD optimizeSpeed = v
+      · simp only [hc, ↓reduceIte] at hg; rw [hg]; simp [hc]
+      · simp only [hc, ↓reduceIte] at hg; rw [hg]; simp
+
+theorem jsChange_fixed {f g : File} (h : SameKey f g) (p : Bool) (cfg : Config) (fd : Field) :
+    jsChange p cfg g (applyField p cfg f fd) = none := by
+  rw [jsChange_congr h]
+  cases hc : jsChange p cfg f fd with
+  | none => unfold applyField; rw [hc]; exact hc
+  | some v =>
+    have hj : (applyField p cfg f fd).jstype = some v := by rw [applyField_jstype, hc]
+    have hn : (applyField p cfg f fd).fullName = fd.fullName := by unfold applyField; rw [hc]
+    have ht : (applyField p cfg f fd).typ = fd.typ := by unfold applyField; rw [hc]
     unfold jsChange at hc ⊢
-    simp only [jsFileActive_congr h, jsDisables_congr h, jsTarget_congr h]
+    rw [hn, ht, hj]
     split at hc; · cases hc
     rename_i h1
     split at hc; · cases hc
@@ -532,72 +1149,79 @@ theorem jsChange_fixed {f g : File} (h : SameKey f g) (cfg : Config) (fd : Field
     rename_i v' hv'
     split at hc; · cases hc
     split at hc; · cases hc
-    rename_i t ht
+    rename_i t htt
     split at hc; · cases hc
     rename_i h5
     split at hc; · cases hc
     cases hc
     simp [h1, h2, h5]
 
+theorem govChange_fixed {f c : File} (h : SameKey f c) (p : Bool) (cfg : Config) (g : Gov)
+    (hc : getOpt g.tag c.opts = getOpt g.tag (applyOptions p cfg f).opts) : govChange p cfg c g = none := by
+  cases g with
+  | str o =>
+    have : c.strOpts o = (applyOptions p cfg f).strOpts o := by
+      unfold File.strOpts; rw [show getOpt o.tag c.opts = getOpt o.tag (applyOptions p cfg f).opts from hc]
+    show (strChange p cfg c o).map OVal.str = none
+    rw [strChange_fixed h p cfg o (this.trans (applyOptions_strOpts p cfg f o))]; rfl
+  | bool o =>
+    have : c.boolOpts o = (applyOptions p cfg f).boolOpts o := by
+      unfold File.boolOpts; rw [show getOpt o.tag c.opts = getOpt o.tag (applyOptions p cfg f).opts from hc]
+    show (boolChange p cfg c o).map OVal.bool = none
+    rw [boolChange_fixed h p cfg o (this.trans (applyOptions_boolOpts p cfg f o))]; rfl
+  | optimize =>
+    have : c.optimizeFor = (applyOptions p cfg f).optimizeFor := by
+      unfold File.optimizeFor; rw [show getOpt optimizeForTag c.opts = getOpt optimizeForTag (applyOptions p cfg f).opts from hc]
+    show (optimizeChange p cfg c).map OVal.num = none
+    rw [optimizeChange_fixed h p cfg (this.trans (applyOptions_optimizeFor p cfg f))]; rfl
 
-
-
-/-- a file that agrees with the modifiers' output on the governed options is a fixed point of
+/-- a file that agrees with the modifiers' output on options and fields is a fixed point of
     the modifiers and yields no marks. -/
-theorem applyOptions_fixed' (cfg : Config) (f g : File) (hk : SameKey f g)
-    (e1 : g.strOpts = (applyOptions false cfg f).strOpts)
-    (e2 : g.boolOpts = (applyOptions false cfg f).boolOpts)
-    (e3 : g.optimizeFor = (applyOptions false cfg f).optimizeFor)
-    (e4 : g.fields = (applyOptions false cfg f).fields) :
-    applyOptions false cfg g = g ∧ marks false cfg g = [] := by
-  have hs : ∀ o, strChange false cfg g o = none := fun o => strChange_fixed hk cfg o (by rw [e1]; rfl)
-  have hb : ∀ o, boolChange false cfg g o = none := fun o => boolChange_fixed hk cfg o (by rw [e2]; rfl)
-  have ho : optimizeChange false cfg g = none := optimizeChange_fixed hk cfg (by rw [e3]; rfl)
-  have hf : ∀ fd ∈ g.fields, jsChange false cfg g fd = none := by
+theorem applyOptions_fixed (p : Bool) (cfg : Config) (f : File) (l : List Loc) :
+    applyOptions p cfg { applyOptions p cfg f with locs := l } = { applyOptions p cfg f with locs := l } ∧
+    marks p cfg { applyOptions p cfg f with locs := l } = [] := by
+  have hk : SameKey f { applyOptions p cfg f with locs := l } := ⟨rfl, rfl, rfl⟩
+  generalize hG : ({ applyOptions p cfg f with locs := l } : File) = G at hk
+  have hGo : G.opts = (applyOptions p cfg f).opts := by rw [← hG]
+  have hGf : G.fields = f.fields.map (applyField p cfg f) := by rw [← hG]; rfl
+  have hch : fileChanges p cfg G Gov.all = [] := by
+    unfold fileChanges
+    apply List.filterMap_eq_nil_iff.mpr
+    intro g _
+    rw [govChange_fixed hk p cfg g (by rw [hGo])]; rfl
+  have hf : ∀ fd ∈ G.fields, jsChange p cfg G fd = none := by
     intro fd hfd
-    rw [e4] at hfd
+    rw [hGf] at hfd
     obtain ⟨fd0, _, rfl⟩ := List.mem_map.mp hfd
-    exact jsChange_fixed hk cfg fd0
-  have h4 : g.fields.map (applyField false cfg g) = g.fields := by
-    conv => rhs; rw [← List.map_id g.fields]
+    exact jsChange_fixed hk p cfg fd0
+  have h4 : G.fields.map (applyField p cfg G) = G.fields := by
+    conv => rhs; rw [← List.map_id G.fields]
     apply List.map_congr_left
     intro fd hfd
     unfold applyField; simp [hf fd hfd]
   constructor
   · unfold applyOptions
-    simp only [hs, hb, ho, h4]
+    rw [hch, h4]; rfl
   · unfold marks
-    have m1 : (StrOpt.all.filterMap fun o => (strChange false cfg g o).map fun _ => [8, o.tag]) = [] := by
-      simp [hs]
-    have m2 : (BoolOpt.all.filterMap fun o => (boolChange false cfg g o).map fun _ => [8, o.tag]) = [] := by
-      simp [hb]
-    rw [m1, m2, ho]
-    simp only [List.nil_append, Option.map_none, Option.toList_none]
+    rw [hch]
+    simp only [List.map_nil, List.nil_append]
+    unfold jsMarks
     apply List.filterMap_eq_nil_iff.mpr
     intro fd hfd; simp [hf fd hfd]
 
-theorem applyOptions_fixed (cfg : Config) (f : File) (l : List Loc) :
-    applyOptions false cfg { applyOptions false cfg f with locs := l } = { applyOptions false cfg f with locs := l } ∧
-    marks false cfg { applyOptions false cfg f with locs := l } = [] :=
-  applyOptions_fixed' cfg f _ ⟨rfl, rfl, rfl⟩ rfl rfl rfl rfl
-
-theorem modifyOptions_fixed (cfg : Config) (f : File) (l : List Loc) :
-    modifyOptions false cfg { modifyOptions false cfg f with locs := l } = { modifyOptions false cfg f with locs := l } ∧
-    fileMarks false cfg { modifyOptions false cfg f with locs := l } = [] := by
+theorem modifyOptions_fixed (p : Bool) (cfg : Config) (f : File) (l : List Loc) :
+    modifyOptions p cfg { modifyOptions p cfg f with locs := l } = { modifyOptions p cfg f with locs := l } ∧
+    fileMarks p cfg { modifyOptions p cfg f with locs := l } = [] := by
+  simp only [modifyOptions_eq, fileMarks_eq]
   by_cases hw : isWKT f.path = true
-  · have hm : modifyOptions false cfg f = f := by unfold modifyOptions; simp [hw]
-    rw [hm]
-    have hp : isWKT ({ f with locs := l } : File).path = true := hw
-    unfold modifyOptions fileMarks
-    simp [hp]
-  · have hm : modifyOptions false cfg f = applyOptions false cfg f := by unfold modifyOptions; simp [hw]
-    rw [hm]
-    have hp : isWKT ({ applyOptions false cfg f with locs := l } : File).path = false := by
+  · simp only [hw, ↓reduceIte]
+    simp
+  · simp only [hw, Bool.false_eq_true, ↓reduceIte]
+    have hp : isWKT ({ applyOptions p cfg f with locs := l } : File).path = false := by
       show isWKT f.path = false
       simpa using hw
-    unfold modifyOptions fileMarks
     simp only [hp, Bool.false_eq_true, ↓reduceIte]
-    exact applyOptions_fixed cfg f l
+    exact applyOptions_fixed p cfg f l
 
 theorem sweepAll_nomarks (fixed : Bool) :
     ∀ l : List File, sweepAll fixed (l.map fun f => (f, ([] : List (List Nat)))) = ⟨l, false⟩
@@ -621,25 +1245,341 @@ theorem AllRel.mem_right {α β : Type} {R : α → β → Prop} :
   | _ :: _, [], hf => hf.elim
 
 /-- Idempotence: applying managed mode to its own output changes nothing and reports no
-    error — also when the first application ended with a sweep error. -/
-theorem modifyWith_idempotent (fixed : Bool) (cfg : Config) (img : List File) :
-    modifyWith fixed false cfg (modifyWith fixed false cfg img).files =
-      ⟨(modifyWith fixed false cfg img).files, false⟩ := by
+    error — also when the first application ended with a sweep error, with or without
+    `ModifyPreserveExisting`, for the sweeper before and after the fix. -/
+theorem modifyWith_idempotent (fixed p : Bool) (cfg : Config) (img : List File) :
+    modifyWith fixed p cfg (modifyWith fixed p cfg img).files =
+      ⟨(modifyWith fixed p cfg img).files, false⟩ := by
   cases he : cfg.enabled
   · unfold modifyWith; simp [he]
-  · have hrel := modifyWith_rel fixed false cfg img he
-    generalize (modifyWith fixed false cfg img).files = out at hrel
+  · have hrel := modifyWith_rel fixed p cfg img he
+    generalize (modifyWith fixed p cfg img).files = out at hrel
     unfold modifyWith
     simp only [he, Bool.not_true, Bool.false_eq_true, ↓reduceIte]
-    have : out.map (fun f => (modifyOptions false cfg f, fileMarks false cfg f)) =
+    have : out.map (fun f => (modifyOptions p cfg f, fileMarks p cfg f)) =
         out.map (fun f => (f, ([] : List (List Nat)))) := by
       apply List.map_congr_left
       intro g hg
       obtain ⟨f, _, l, rfl, _⟩ := AllRel.mem_right hrel g hg
-      have := modifyOptions_fixed cfg f l
+      have := modifyOptions_fixed p cfg f l
       rw [this.1, this.2]
     rw [this, sweepAll_nomarks]
 
+/-! ### helpers for the property theorems -/
 
+/-- `f'` is what `Modify(img, cfg)` (with `ModifyPreserveExisting` iff `p`) leaves at the
+    position where `img` holds `f`. -/
+def Out (p : Bool) (cfg : Config) (img : List File) (f f' : File) : Prop :=
+  ∃ i : Nat, img[i]? = some f ∧ (modifyWith true p cfg img).files[i]? = some f'
+
+theorem sweepInv_init (mk : List (List Nat)) (all : List Loc) : SweepInv mk all 0 ⟨[], []⟩ :=
+  ⟨by intro k hk; simp at hk, by intro e he; simp at he, by intro k hk; omega, by intro k hk; omega⟩
+
+
+/-! ### string options: `stringOverrideFromConfig` against a declarative description -/
+
+/-- the elements after the last one satisfying `q` (the whole list if none does). -/
+def afterLast {α : Type} (q : α → Bool) : List α → List α
+  | [] => []
+  | a :: as => if as.any q then afterLast q as else if q a then as else a :: as
+
+theorem afterLast_snoc {α : Type} (q : α → Bool) (r : α) :
+    ∀ l : List α, afterLast q (l ++ [r]) = if q r then [] else afterLast q l ++ [r]
+  | [] => by
+    by_cases h : q r = true <;> simp [afterLast, h]
+  | a :: as => by
+    have ih := afterLast_snoc q r as
+    show afterLast q (a :: (as ++ [r])) = _
+    unfold afterLast
+    by_cases h : q r = true
+    · simp only [h, ↓reduceIte] at ih ⊢
+      simp [h, ih]
+    · simp only [h, Bool.false_eq_true, ↓reduceIte] at ih ⊢
+      have hany : (as ++ [r]).any q = as.any q := by simp [h]
+      rw [hany, ih]
+      by_cases h2 : as.any q = true
+      · simp [h2]
+      · simp only [h2, Bool.false_eq_true, ↓reduceIte]
+        by_cases h3 : q a = true <;> simp [h3]
+
+theorem filter_snoc {α : Type} (q : α → Bool) (l : List α) (r : α) :
+    (l ++ [r]).filter q = if q r then l.filter q ++ [r] else l.filter q := by
+  by_cases h : q r = true <;> simp [List.filter_append, h]
+
+/-- `specSOO` on the list of rules that match the file. -/
+def specOf (isV isP isS : Override → Bool) (d0 : SOO) (ms : List Override) : SOO :=
+  let base : SOO := match (ms.filter isV).getLast? with
+    | some r => ⟨r.sval, [], []⟩
+    | none => d0
+  let tail := afterLast isV ms
+  let lp := (tail.filter isP).getLast?
+  let ls := (tail.filter isS).getLast?
+  ⟨if lp.isSome || ls.isSome then [] else base.value,
+   (lp.map (·.sval)).getD base.pfx, (ls.map (·.sval)).getD base.suffix⟩
+
+/-- The override options `stringOverrideFromConfig` arrives at, described by WHICH rules
+    count rather than by the loop.  Among the override rules that match the file, in
+    configuration order:
+    * the last rule for the value option (if any) resets everything to its value; before it,
+      nothing matters; without one the start is the default (`d0`);
+    * after it, the last rule for the prefix option and the last rule for the suffix option
+      (only where that companion option exists and is not disabled: `useP` / `useS`) give
+      prefix and suffix, the other one being kept; as soon as one of them exists the value is
+      blank (so the value function computes it from prefix/suffix). -/
+def specSOO (f : File) (vOpt pOpt sOpt : FileOption) (useP useS : Bool) (d0 : SOO) (l : List Override) : SOO :=
+  specOf (fun r => decide (r.fileOption = vOpt)) (fun r => useP && decide (r.fileOption = pOpt))
+    (fun r => useS && decide (r.fileOption = sOpt)) d0 (l.filter fun r => fileMatch f r.path r.module)
+
+theorem specOf_nil (isV isP isS : Override → Bool) (d0 : SOO) : specOf isV isP isS d0 [] = d0 := by
+  cases d0; simp [specOf, afterLast]
+
+theorem specSOO_nil (f : File) (vOpt pOpt sOpt : FileOption) (useP useS : Bool) (d0 : SOO) :
+    specSOO f vOpt pOpt sOpt useP useS d0 [] = d0 := specOf_nil _ _ _ d0
+
+theorem specOf_snoc (isV isP isS : Override → Bool) (d0 : SOO) (ms : List Override) (r : Override) :
+    specOf isV isP isS d0 (ms ++ [r]) =
+      if isV r then ⟨r.sval, [], []⟩
+      else
+        ⟨if isP r || isS r then [] else (specOf isV isP isS d0 ms).value,
+         if isP r then r.sval else (specOf isV isP isS d0 ms).pfx,
+         if isS r then r.sval else (specOf isV isP isS d0 ms).suffix⟩ := by
+  unfold specOf
+  cases hv : isV r <;> cases hp : isP r <;> cases hs : isS r <;>
+    simp [afterLast_snoc, hv, hp, hs]
+
+theorem specSOO_snoc_aux (f : File) (vOpt pOpt sOpt : FileOption) (useP useS : Bool) (d0 : SOO)
+    (pre : List Override) (r : Override) (hm : fileMatch f r.path r.module = true) :
+    specSOO f vOpt pOpt sOpt useP useS d0 (pre ++ [r]) =
+      if decide (r.fileOption = vOpt) then ⟨r.sval, [], []⟩
+      else
+        let S := specSOO f vOpt pOpt sOpt useP useS d0 pre
+        ⟨if (useP && decide (r.fileOption = pOpt)) || (useS && decide (r.fileOption = sOpt)) then [] else S.value,
+         if useP && decide (r.fileOption = pOpt) then r.sval else S.pfx,
+         if useS && decide (r.fileOption = sOpt) then r.sval else S.suffix⟩ := by
+  have hms : (pre ++ [r]).filter (fun r => fileMatch f r.path r.module) =
+      pre.filter (fun r => fileMatch f r.path r.module) ++ [r] := by
+    rw [filter_snoc]; simp [hm]
+  unfold specSOO
+  rw [hms, specOf_snoc]
+
+theorem specSOO_snoc (f : File) (vOpt pOpt sOpt : FileOption) (useP useS : Bool) (d0 : SOO)
+    (hps : pOpt = sOpt → useP = false ∧ useS = false)
+    (pre : List Override) (r : Override) :
+    specSOO f vOpt pOpt sOpt useP useS d0 (pre ++ [r]) =
+      sooStep f vOpt pOpt sOpt (!useP) (!useS) (specSOO f vOpt pOpt sOpt useP useS d0 pre) r := by
+  by_cases hm : fileMatch f r.path r.module = true
+  · rw [specSOO_snoc_aux f vOpt pOpt sOpt useP useS d0 pre r hm]
+    unfold sooStep
+    simp only [hm, Bool.not_true, Bool.false_eq_true, ↓reduceIte]
+    by_cases hv : r.fileOption = vOpt
+    · simp [hv]
+    · have hvf : decide (r.fileOption = vOpt) = false := by simpa using hv
+      simp only [hv, ↓reduceIte]
+      by_cases hp : r.fileOption = pOpt
+      · have hsne : useP = true → ¬ (pOpt = sOpt) := fun hu he => by
+          have := (hps he).1; rw [hu] at this; cases this
+        have hpd : decide (r.fileOption = pOpt) = true := by simpa using hp
+        simp only [hp, ↓reduceIte]
+        cases hu : useP
+        · have hS : (useS && decide (pOpt = sOpt)) = false := by
+            by_cases he : pOpt = sOpt
+            · simp [(hps he).2]
+            · simp [he]
+          simp [hS]
+        · have hS : (useS && decide (pOpt = sOpt)) = false := by
+            simp [hsne hu]
+          simp [hS]
+      · have hpf : decide (r.fileOption = pOpt) = false := by simpa using hp
+        simp only [hp, ↓reduceIte]
+        by_cases hs : r.fileOption = sOpt
+        · simp only [hs, decide_true, Bool.and_true, ↓reduceIte]
+          cases hu : useS <;> simp
+        · have hsf : decide (r.fileOption = sOpt) = false := by simpa using hs
+          simp [hs]
+  · unfold sooStep
+    simp only [hm, Bool.not_false, ↓reduceIte]
+    have hms : (pre ++ [r]).filter (fun r => fileMatch f r.path r.module) =
+        pre.filter (fun r => fileMatch f r.path r.module) := by
+      rw [filter_snoc]; simp [hm]
+    unfold specSOO
+    simp only [hms]
+
+theorem foldl_sooStep_spec (f : File) (vOpt pOpt sOpt : FileOption) (useP useS : Bool) (d0 : SOO)
+    (hps : pOpt = sOpt → useP = false ∧ useS = false) :
+    ∀ (l pre : List Override),
+      l.foldl (sooStep f vOpt pOpt sOpt (!useP) (!useS)) (specSOO f vOpt pOpt sOpt useP useS d0 pre) =
+        specSOO f vOpt pOpt sOpt useP useS d0 (pre ++ l)
+  | [], pre => by simp
+  | r :: l, pre => by
+    simp only [List.foldl_cons]
+    rw [← specSOO_snoc f vOpt pOpt sOpt useP useS d0 hps, foldl_sooStep_spec f vOpt pOpt sOpt useP useS d0 hps l]
+    simp
+
+theorem stringOverride_disabled {cfg : Config} {f : File} {d : SOO} {v p s : FileOption}
+    (h : isFileOptionDisabled cfg f v = true) : stringOverride cfg f d v p s = SOO.empty := by
+  unfold stringOverride; simp [h]
+
+theorem StrOpt.companions_distinct (o : StrOpt) :
+    o.prefixOpt = o.suffixOpt → o.prefixOpt = .unspecified ∧ o.suffixOpt = .unspecified := by
+  cases o <;> simp [StrOpt.prefixOpt, StrOpt.suffixOpt]
+
+/-- the prefix companion of string option `o` exists and is not disabled for the file. -/
+def usePfx (cfg : Config) (f : File) (o : StrOpt) : Bool :=
+  !(o.prefixOpt = .unspecified || isFileOptionDisabled cfg f o.prefixOpt)
+def useSfx (cfg : Config) (f : File) (o : StrOpt) : Bool :=
+  !(o.suffixOpt = .unspecified || isFileOptionDisabled cfg f o.suffixOpt)
+
+/-- the override options for string option `o` of file `f`, declaratively (see `specSOO`);
+    the start is the managed default with prefix / suffix blanked where unusable. -/
+def strSpecSOO (cfg : Config) (f : File) (o : StrOpt) : SOO :=
+  specSOO f o.valueOpt o.prefixOpt o.suffixOpt (usePfx cfg f o) (useSfx cfg f o)
+    ⟨(o.defaultSOO f).value, if usePfx cfg f o then (o.defaultSOO f).pfx else [],
+     if useSfx cfg f o then (o.defaultSOO f).suffix else []⟩ cfg.overrides
+
+theorem stringOverride_eq_spec (cfg : Config) (f : File) (o : StrOpt)
+    (hd : isFileOptionDisabled cfg f o.valueOpt = false) :
+    stringOverride cfg f (o.defaultSOO f) o.valueOpt o.prefixOpt o.suffixOpt = strSpecSOO cfg f o := by
+  unfold stringOverride strSpecSOO
+  simp only [hd, Bool.false_eq_true, ↓reduceIte]
+  have hps : o.prefixOpt = o.suffixOpt → usePfx cfg f o = false ∧ useSfx cfg f o = false := by
+    intro he
+    obtain ⟨h1, h2⟩ := StrOpt.companions_distinct o he
+    unfold usePfx useSfx; simp [h1, h2]
+  have hP : (decide (o.prefixOpt = .unspecified) || isFileOptionDisabled cfg f o.prefixOpt) = !usePfx cfg f o := by
+    unfold usePfx; simp
+  have hS : (decide (o.suffixOpt = .unspecified) || isFileOptionDisabled cfg f o.suffixOpt) = !useSfx cfg f o := by
+    unfold useSfx; simp
+  rw [hP, hS]
+  have h0 := foldl_sooStep_spec f o.valueOpt o.prefixOpt o.suffixOpt (usePfx cfg f o) (useSfx cfg f o)
+    ⟨(o.defaultSOO f).value, if usePfx cfg f o then (o.defaultSOO f).pfx else [],
+     if useSfx cfg f o then (o.defaultSOO f).suffix else []⟩ hps cfg.overrides []
+  rw [specSOO_nil] at h0
+  simp only [List.nil_append] at h0
+  rw [← h0]
+  congr 2
+  · cases usePfx cfg f o <;> simp
+  · cases useSfx cfg f o <;> simp
+
+/-- The value managed mode wants in string option `o` of file `f` (`none` = it leaves the
+    option alone): nothing when a disable rule exempts the option, or when nothing at all is
+    configured (all-blank override options), or when the computed value is empty; otherwise the
+    explicit value of the winning value override, else the default formula applied to the
+    winning prefix / suffix. -/
+def strSpec (cfg : Config) (f : File) (o : StrOpt) : Option (List Char) :=
+  if isFileOptionDisabled cfg f o.valueOpt then none
+  else
+    let s := strSpecSOO cfg f o
+    if s = SOO.empty then none
+    else
+      let v := if s.value = [] then o.valueFunc f s else s.value
+      if v = [] then none else some v
+
+theorem strTarget_eq_spec (cfg : Config) (f : File) (o : StrOpt) : strTarget cfg f o = strSpec cfg f o := by
+  unfold strTarget strSpec
+  cases hd : isFileOptionDisabled cfg f o.valueOpt
+  · rw [stringOverride_eq_spec cfg f o hd]; simp
+  · rw [stringOverride_disabled hd]; simp
+
+/-- an override rule concerns string option `o` of file `f`: it matches the file and is for the
+    option itself or for its prefix / suffix companion. -/
+def relevant (f : File) (o : StrOpt) (r : Override) : Bool :=
+  fileMatch f r.path r.module &&
+    (r.fileOption = o.valueOpt ||
+     (r.fileOption = o.prefixOpt && o.prefixOpt ≠ .unspecified) ||
+     (r.fileOption = o.suffixOpt && o.suffixOpt ≠ .unspecified))
+
+theorem sooStep_irrelevant (cfg : Config) (f : File) (o : StrOpt) (acc : SOO) (r : Override)
+    (hr : relevant f o r = false) :
+    sooStep f o.valueOpt o.prefixOpt o.suffixOpt
+      (o.prefixOpt = .unspecified || isFileOptionDisabled cfg f o.prefixOpt)
+      (o.suffixOpt = .unspecified || isFileOptionDisabled cfg f o.suffixOpt) acc r = acc := by
+  unfold sooStep
+  unfold relevant at hr
+  by_cases hm : fileMatch f r.path r.module = true
+  · simp only [hm, Bool.true_and, Bool.or_eq_false_iff, Bool.and_eq_false_imp, decide_eq_true_eq,
+      decide_eq_false_iff_not] at hr
+    obtain ⟨⟨h1, h2⟩, h3⟩ := hr
+    simp only [hm, Bool.not_true, Bool.false_eq_true, ↓reduceIte, h1]
+    by_cases hp : r.fileOption = o.prefixOpt
+    · have := h2 hp; simp at this; simp [hp, this]
+    · simp only [hp, ↓reduceIte]
+      by_cases hs : r.fileOption = o.suffixOpt
+      · have := h3 hs; simp at this; simp [hs, this]
+      · simp [hs]
+  · simp [hm]
+
+theorem foldl_irrelevant (cfg : Config) (f : File) (o : StrOpt) (post : List Override)
+    (hpost : ∀ r ∈ post, relevant f o r = false) (acc : SOO) :
+    post.foldl (sooStep f o.valueOpt o.prefixOpt o.suffixOpt
+      (o.prefixOpt = .unspecified || isFileOptionDisabled cfg f o.prefixOpt)
+      (o.suffixOpt = .unspecified || isFileOptionDisabled cfg f o.suffixOpt)) acc = acc := by
+  induction post generalizing acc with
+  | nil => rfl
+  | cons r rs ih =>
+    simp only [List.foldl_cons]
+    rw [sooStep_irrelevant cfg f o acc r (hpost r (by simp))]
+    exact ih (fun r' hr' => hpost r' (by simp [hr'])) acc
+
+/-! ### glue used by the property theorems -/
+
+theorem out_rel {p : Bool} {cfg : Config} {img : List File} {f f' : File} (he : cfg.enabled = true)
+    (h : Out p cfg img f f') : OutRel true p cfg f f' := by
+  obtain ⟨i, h1, h2⟩ := h
+  exact AllRel.get (modifyWith_rel true p cfg img he) i f f' h1 h2
+
+theorem out_typed {p : Bool} {cfg : Config} {img : List File} {f f' : File} (he : cfg.enabled = true)
+    (h : Out p cfg img f f') (hw : isWKT f.path = false) :
+    (∀ o, f'.strOpts o = (applyOptions p cfg f).strOpts o) ∧
+    (∀ o, f'.boolOpts o = (applyOptions p cfg f).boolOpts o) ∧
+    f'.optimizeFor = (applyOptions p cfg f).optimizeFor ∧
+    f'.fields = f.fields.map (applyField p cfg f) := by
+  obtain ⟨h1, h2⟩ : f'.opts = (modifyOptions p cfg f).opts ∧ f'.fields = (modifyOptions p cfg f).fields := by
+    obtain ⟨l, rfl, _⟩ := out_rel he h
+    exact ⟨rfl, rfl⟩
+  rw [modifyOptions_eq] at h1 h2
+  simp only [hw, Bool.false_eq_true, ↓reduceIte] at h1 h2
+  refine ⟨fun o => ?_, fun o => ?_, ?_, h2⟩
+  · unfold File.strOpts; rw [h1]
+  · unfold File.boolOpts; rw [h1]
+  · unfold File.optimizeFor; rw [h1]
+
+theorem strSpec_ne_nil {cfg : Config} {f : File} {o : StrOpt} {v : List Char}
+    (h : strSpec cfg f o = some v) : v ≠ [] := by
+  unfold strSpec at h
+  by_cases hd : isFileOptionDisabled cfg f o.valueOpt = true
+  · simp [hd] at h
+  · simp only [hd, Bool.false_eq_true, ↓reduceIte] at h
+    by_cases he : strSpecSOO cfg f o = SOO.empty
+    · simp [he] at h
+    · simp only [he, ↓reduceIte] at h
+      by_cases hv : (if (strSpecSOO cfg f o).value = [] then o.valueFunc f (strSpecSOO cfg f o)
+          else (strSpecSOO cfg f o).value) = []
+      · simp [hv] at h
+      · simp only [hv, ↓reduceIte, Option.some.injEq] at h; rw [← h]; exact hv
+
+
+/-! ### a concrete image and configuration for the non-vacuity examples -/
+
+def exFile : File :=
+  { path := "acme/weather/v1/weather.proto".toList, pkg := "acme.weather.v1".toList,
+    module := some "buf.build/acme/weather".toList,
+    opts := [(1, .str "com.old".toList), (23, .bool true), (50001, .raw 77)],
+    fields := [⟨"acme.weather.v1.M.id".toList, [4, 0, 2, 0], some 3, [(3, .bool true), (6, .num 1)], 11⟩,
+               ⟨"acme.weather.v1.M.n".toList, [4, 0, 2, 1], some 5, [], 12⟩],
+    locs := [⟨[], 0⟩, ⟨[8], 1⟩, ⟨[8, 1], 2⟩, ⟨[8], 3⟩, ⟨[8, 23], 4⟩, ⟨[4, 0, 2, 0, 8], 5⟩,
+             ⟨[4, 0, 2, 0, 8, 6], 6⟩, ⟨[4, 0, 2, 0, 8, 3], 7⟩, ⟨[4, 0, 2, 1, 8], 8⟩],
+    payload := 7 }
+
+def exWkt : File :=
+  { exFile with path := "google/protobuf/timestamp.proto".toList, pkg := "google.protobuf".toList }
+
+def exCfg : Config :=
+  { enabled := true,
+    disables := [⟨"acme".toList, [], [], .csharpNamespace, false⟩],
+    overrides := [⟨[], [], [], .javaPackage, false, "ignored.earlier".toList, false, 0⟩,
+                  ⟨[], [], [], .javaPackageSuffix, false, "gen".toList, false, 0⟩,
+                  ⟨[], [], [], .goPackagePrefix, false, "gen/go".toList, false, 0⟩,
+                  ⟨[], [], [], .javaMultipleFiles, false, [], false, 0⟩,
+                  ⟨[], [], [], .unspecified, true, [], false, 2⟩] }
 
 end BufProofs.ManagedLemmas
